@@ -1201,7 +1201,7 @@ fn composite_surface_contract(dw: i32, dh: i32, sw: i32, sh: i32) {
             k += 1;
         }
     }
-    kani::cover!(n == 2 && src_rect.min.x == 1);
+    kani::cover!(n == 2 && src_rect.min.x == 1 || dw == 0);
     kani::cover!(n == 0);
 }
 // @ob id=K.composite_surface_32 props=C15,C07,C11 kind=bounded:dst=3x2,src=2x3 tier=quick timeout=900 fns=DrawTarget::composite_surface
@@ -1305,66 +1305,6 @@ fn k_apply_path_transform() {
     kani::cover!(n0 == 3);
 }
 
-// ------------------------------------------------------------------ end to end through the real rasteriser (C01, C14 #2) -- thorough
-// @ob id=K.fill_rect_mask_e2e props=C01,C14 kind=bounded:surface=2x2,rect-in[-1,3] tier=thorough timeout=3000 fns=DrawTarget::fill,DrawTarget::apply_path,Rasterizer::add_edge,Rasterizer::rasterize,MaskSuperBlitter::blit_span
-// @+ desc="end to end through the REAL path replay, edge set-up, scan conversion and supersampling blitter (only composite is a recorder): filling PathBuilder::rect(x,y,w,h) with integer x,y in [-1,2], w,h in [1,3] on a 2x2 surface hands composite a coverage mask that is 255 exactly on the rectangle ∩ surface (64+64+64+63 per fully covered pixel) and 0 elsewhere inside the mask rect, and a mask rect that contains the rectangle ∩ surface"
-#[kani::proof]
-#[kani::unwind(12)]
-#[kani::stub(DrawTarget::composite, composite_mask_rec)]
-#[kani::stub(DrawTarget::quad_to, quad_to_rec)]
-#[kani::stub(DrawTarget::cubic_to, cubic_to_rec)]
-fn k_fill_rect_mask_e2e() {
-    let mut dt = DrawTarget::new(2, 2);
-    let (x, y, w, h): (i8, i8, i8, i8) = (kani::any(), kani::any(), kani::any(), kani::any());
-    kani::assume(x >= -1 && x <= 2 && y >= -1 && y <= 2 && w >= 1 && w <= 3 && h >= 1 && h <= 3);
-    let mut pb = PathBuilder::new();
-    pb.rect(x as f32, y as f32, w as f32, h as f32);
-    let path = pb.finish();
-    unsafe { MASK_N = 0; }
-    dt.fill(&path, &Source::Solid(SolidSource { r: 255, g: 255, b: 255, a: 255 }), &DrawOptions::new());
-    let (x0, y0, x1, y1) = ((x as i32).max(0), (y as i32).max(0), (x as i32 + w as i32).min(2), (y as i32 + h as i32).min(2));
-    let n = unsafe { MASK_N };
-    if x0 >= x1 || y0 >= y1 {
-        // nothing of the rectangle is on the surface: either no composite or an all-zero mask
-        if n == 1 { let mut i = 0; while i < 4 { assert!(unsafe { MASK_COPY[i] } == 0 || i >= unsafe { MASK_LEN }, "off-surface rectangle covers nothing"); i += 1; } }
-    } else {
-        assert!(n == 1, "one composite");
-        let mr = unsafe { MASK_RECT };
-        assert!(mr.min.x <= x0 && mr.min.y <= y0 && mr.max.x >= x1 && mr.max.y >= y1 && mr.min.x >= 0 && mr.min.y >= 0 && mr.max.x <= 2 && mr.max.y <= 2, "mask rect contains the visible rectangle and lies on the surface");
-        let mw = mr.max.x - mr.min.x;
-        let mut py = 0;
-        while py < 2 {
-            let mut px = 0;
-            while px < 2 {
-                if px >= mr.min.x && px < mr.max.x && py >= mr.min.y && py < mr.max.y {
-                    let v = unsafe { MASK_COPY[((py - mr.min.y) * mw + (px - mr.min.x)) as usize] };
-                    let inside = px >= x0 && px < x1 && py >= y0 && py < y1;
-                    assert!(v == if inside { 255 } else { 0 }, "coverage 255 exactly on the rectangle, 0 elsewhere");
-                }
-                px += 1;
-            }
-            py += 1;
-        }
-    }
-    kani::cover!(n == 1 && x == -1 && w == 2);
-    kani::cover!(n == 1 && x0 == 1 && y0 == 1);
-}
-pub static mut MASK_COPY: [u8; 5] = [0; 5];
-pub static mut MASK_LEN: usize = 0;
-pub static mut MASK_N: usize = 0;
-pub static mut MASK_RECT: IntRect = ZR;
-fn composite_mask_rec<Backing: AsRef<[u32]> + AsMut<[u32]>>(_dt: &mut DrawTarget<Backing>, _src: &Source, mask: Option<&[u8]>, mask_rect: IntRect, _rect: IntRect, _blend: BlendMode, _alpha: f32) {
-    unsafe {
-        MASK_N += 1;
-        MASK_RECT = mask_rect;
-        if let Some(m) = mask {
-            MASK_LEN = m.len();
-            let mut i = 0;
-            while i < 5 { if i < m.len() { MASK_COPY[i] = m[i]; } i += 1; }
-        }
-    }
-}
-
 // ------------------------------------------------------------------ quads -> monotonic curve edges (C08 #2)
 // @ob id=K.add_quad props=C08,C07 kind=complete tier=quick timeout=1200 fns=DrawTarget::add_quad,DrawTarget::quad_to
 // @+ desc="add_quad for finite control points in ±4000: every curve edge handed to the rasteriser is monotonic in y (control y between the end points' y); a quad that is already monotonic is passed through bit for bit; a non-monotonic quad is either chopped at its y-extremum into two halves that share the split point, keep the original end points bit for bit and have their control points level with the split point, or (no usable split parameter) keeps its end points and control x and has its control y snapped to the NEARER end point's y -- the control point never moves further than needed; no debug assertion fires"
@@ -1401,3 +1341,76 @@ fn k_add_quad() {
     kani::cover!(n == 1 && !mono_in);
     kani::cover!(n == 1 && mono_in);
 }
+
+// ------------------------------------------------------------------ composite at pixel level through the real blitters (C02, C03, C05, C06)
+// Geometry is concrete (trip counts constant), every pixel, coverage byte and clip byte is symbolic, the kernels are arbitrary
+// functions: the whole chain composite -> choose_blitter -> blit_span -> row proc is compared with the per-pixel formula.
+pub static mut UF_OVER_IN: Uf = Uf::new();
+pub static mut UF_OVER_IN_IN: Uf = Uf::new();
+pub fn over_in_uf2(src: u32, dst: u32, alpha: u32) -> u32 { unsafe { UF_OVER_IN.call([src, dst, alpha, 0]) } }
+pub fn over_in_in_uf2(src: u32, dst: u32, mask: u32, clip: u32) -> u32 { unsafe { UF_OVER_IN_IN.call([src, dst, mask, clip]) } }
+
+fn composite_pixels(clip_kind: u8, with_layer: bool, srcover: bool) {
+    let mut dt = DrawTarget::new(CW, CH);
+    let surf0: [u32; 6] = kani::any();
+    dt.buf.copy_from_slice(&surf0);
+    let clipmask: [u8; 7] = kani::any();
+    let crect = intrect(0, 0, 2, 2);
+    if clip_kind == 1 { dt.clip_stack.push(Clip { rect: crect, mask: None }); }
+    if clip_kind == 2 { dt.clip_stack.push(Clip { rect: crect, mask: Some(clipmask.to_vec()) }); }
+    let lrect = intrect(1, 0, 3, 2);
+    let lay0: [u32; 4] = kani::any();
+    if with_layer { dt.layer_stack.push(Layer { buf: lay0.to_vec(), opacity: 1., rect: lrect, blend: BlendMode::SrcOver }); }
+    let mask: [u8; 6] = kani::any();
+    let color = SolidSource { r: 10, g: 20, b: 30, a: 200 };
+    let src = Source::Solid(color);
+    let rect = intrect(1, 0, 3, 2);
+    uf_reset();
+    unsafe { UF_OVER_IN.n = 0; UF_OVER_IN_IN.n = 0; }
+    dt.composite(&src, Some(&mask[..]), intrect(0, 0, CW, CH), rect, if srcover { BlendMode::SrcOver } else { BlendMode::Multiply }, 1.);
+    let s = alpha_mul(color.to_u32(), 256);
+    // region = rect ∩ clip ∩ destination
+    let (rx0, rx1) = (1, if clip_kind > 0 { 2 } else { 3 });
+    let mut y = 0;
+    while y < 2 {
+        let mut x = 0;
+        while x < 3 {
+            let m = mask[(y * 3 + x) as usize];
+            let c = clipmask[(y * 3 + x) as usize];
+            let inside = x >= rx0 && x < rx1;
+            let in_layer = x >= 1;
+            let d0 = if with_layer { if in_layer { lay0[(y * 2 + x - 1) as usize] } else { 0 } } else { surf0[(y * 3 + x) as usize] };
+            let exp = if !inside { d0 }
+                else if clip_kind == 2 {
+                    if srcover { if m != 0 && c != 0 { over_in_in(s, d0, m as u32, c as u32) } else { d0 } }
+                    else { alpha_lerp(d0, <blend::Multiply as blend::Blend>::blend(s, d0), m as u32, c as u32) }
+                } else if srcover { if m != 0 { over_in(s, d0, m as u32) } else { d0 } }
+                else if m != 0 { lerp(d0, <blend::Multiply as blend::Blend>::blend(s, d0), alpha_to_alpha256(m as u32)) } else { d0 };
+            if with_layer {
+                if in_layer { assert!(dt.layer_stack[0].buf[(y * 2 + x - 1) as usize] == exp, "layer pixel = per-pixel formula (own inputs only)"); }
+                assert!(dt.buf[(y * 3 + x) as usize] == surf0[(y * 3 + x) as usize], "surface beneath the layer untouched");
+            } else {
+                assert!(dt.buf[(y * 3 + x) as usize] == exp, "surface pixel = per-pixel formula (own inputs only)");
+            }
+            x += 1;
+        }
+        y += 1;
+    }
+    kani::cover!(mask[1] != 0 && clipmask[1] != 0);
+}
+macro_rules! composite_pixels_harness { ($name:ident, $ck:expr, $layer:expr, $so:expr) => {
+    #[kani::proof]
+    #[kani::unwind(12)]
+    #[kani::stub(sw_composite::over_in, over_in_uf2)]
+    #[kani::stub(sw_composite::over_in_in, over_in_in_uf2)]
+    #[kani::stub(sw_composite::lerp, lerp_uf)]
+    #[kani::stub(sw_composite::alpha_lerp, alpha_lerp_uf)]
+    #[kani::stub(sw_composite::blend::Multiply::blend, fn_blend)]
+    fn $name() { composite_pixels($ck, $layer, $so); }
+} }
+// @ob id=K.composite_pixels_plain props=C02,C03 kind=bounded:surface=3x2,concrete-geometry tier=quick timeout=900 fns=DrawTarget::composite,DrawTarget::choose_blitter,ShaderMaskBlitter::blit_span
+// @+ desc="pixel level, real blitters, SrcOver, no clip, no layer: every surface pixel (symbolic contents and coverage) equals over_in(src, prev, coverage) inside rect ∩ surface when coverage != 0 and is bit-identical otherwise; kernels arbitrary functions"
+composite_pixels_harness!(k_composite_pixels_plain, 0, false, true);
+// @ob id=K.composite_pixels_clip_layer props=C02,C03,C05,C06 kind=bounded:surface=3x2,concrete-geometry tier=quick timeout=900 fns=DrawTarget::composite,DrawTarget::choose_blitter,ShaderClipMaskBlitter::blit_span
+// @+ desc="pixel level, SrcOver under a clip PATH into a layer at offset (1,0): layer pixel = over_in_in(src, prev, coverage, clip coverage at the DEVICE position), the surface beneath untouched, nothing outside rect ∩ clip bounds ∩ layer"
+composite_pixels_harness!(k_composite_pixels_clip_layer, 2, true, true);
